@@ -93,6 +93,24 @@ pub fn gen(tier: &str, seed: u64, emit: &mut dyn FnMut(String)) {
         let chunks = chunkings(&bytes, style, &mut rng);
         emit(dmx_case(1, "", &chunks));
     }
+    // one very long run on an elementary PID: a PES packet, a counter gap, then 66000 continuation packets without a unit start
+    // (beyond any 16-bit counter), pushed 48 packets at a time
+    {
+        let mut m = Mux::new();
+        let pat = section(0, 1, 0, true, &pat_body(&[(1, 0x100)], &mut rng));
+        let pmt = section(2, 1, 0, true, &pmt_body(0x101, &[], &[(0x1b, 0x101, vec![])], &mut rng));
+        m.psi(0, &pat, 0, 0, &mut rng); m.psi(0x100, &pmt, 0, 0, &mut rng);
+        let spec = PesSpec { stream_id: 0xe0, pts: Some(1), dts: None, extra_hdr: 0, bounded: false, payload: rng.bytes(300), opt_flags: 0, opt_fill: vec![0xff] };
+        let (bytes, hl) = pes_packet(&spec); m.unit(0x101, &bytes, 0, hl, &mut rng);
+        let mut cc = (m.pkts.last().unwrap()[3] & 15).wrapping_add(5) & 15;      // the gap
+        for _ in 0..66000 { let pl = [0x55u8; 184]; m.pkts.push(ts_packet(0x101, false, cc, false, 0, None, &pl)); cc = (cc + 1) & 15; }
+        m.set_cc(0x101, cc.wrapping_sub(1) & 15);
+        let (bytes, hl) = pes_packet(&spec); m.unit(0x101, &bytes, 0, hl, &mut rng);
+        let mut chunks: Vec<Vec<u8>> = vec![]; let mut cur: Vec<u8> = vec![];
+        for p in m.pkts.iter() { cur.extend_from_slice(p); if cur.len() >= 188 * 48 { chunks.push(std::mem::take(&mut cur)); } }
+        chunks.push(cur);
+        emit(dmx_case(0, "", &chunks));
+    }
     // the repository's own fuzz corpus
     if let Ok(rd) = std::fs::read_dir("/repo/fuzz/corpus/fuzz_target_1") {
         let mut files: Vec<_> = rd.filter_map(|e| e.ok()).map(|e| e.path()).collect(); files.sort();
